@@ -44,6 +44,7 @@ type c11Case struct {
 	Lens  []int    `json:"lens"`     // concrete length of each abstract symbol
 	Sched []int    `json:"sched"`    // chunk sizes (cycled); 0 = zero-length read
 	WithE bool     `json:"with_err"` // the last data chunk is returned together with the terminal error
+	Pat   int      `json:"pat"`      // what the inner bytes of strings are made of (0 letters, 1 escaped quotes first, 2 escaped quotes last, 3 UTF-8, 4 backslashes)
 	Ideal [][3]int `json:"ideal"`    // kind (0 val,1 EOF,2 E,3 ueof,4 syn), start, end in abstract offsets
 	Trace bool     `json:"trace,omitempty"`
 }
@@ -87,7 +88,7 @@ func (r *schedReader) Read(p []byte) (int, error) {
 	return n, nil
 }
 
-func liftStream(s []string, lens []int) (data []byte, cum []int) {
+func liftStream(s []string, lens []int, pat int) (data []byte, cum []int) {
 	cum = make([]int, len(s)+1)
 	for i, c := range s {
 		cum[i] = len(data)
@@ -104,8 +105,25 @@ func liftStream(s []string, lens []int) (data []byte, cum []int) {
 		case "o", "c":
 			data = append(data, '"')
 		case "x":
+			// inner bytes of a string: the run is n bytes whatever the pattern (two-byte units, padded with a letter)
+			start := len(data)
 			for k := 0; k < n; k++ {
 				data = append(data, byte('a'+(k+i)%26))
+			}
+			run := data[start:]
+			unit := map[int]string{1: `\"`, 2: `\"`, 3: "\u00c3\u00a9", 4: `\\`}[pat]
+			if pat == 3 {
+				unit = "\xc3\xa9"
+			}
+			if unit != "" && n >= 2 {
+				units := min(n/2, 40)
+				at := 0
+				if pat == 2 {
+					at = n - 2*units
+				}
+				for u := 0; u < units; u++ {
+					copy(run[at+2*u:], unit[:2])
+				}
 			}
 		default:
 			data = append(data, '!')
@@ -223,7 +241,7 @@ func errKind(err error) string {
 }
 
 func c11Run(c *Ctx, k c11Case) (events []string, header string) {
-	data, cum := liftStream(k.S, k.Lens)
+	data, cum := liftStream(k.S, k.Lens, k.Pat)
 	var term error = io.EOF
 	if k.T == "E" {
 		term = errReader
@@ -369,7 +387,7 @@ func c11Vector(c *Ctx, raw stdjson.RawMessage) {
 	ext := func(i int) bool { return v.S[i] == "w" || v.S[i] == "d" || v.S[i] == "x" }
 	tracing := traceSink() && r.intn(100) < tracePct
 	run := func(lens, sched []int, withE bool, trace bool) {
-		k := c11Case{S: v.S, T: v.T, Lens: lens, Sched: sched, WithE: withE, Ideal: ideal, Trace: trace && tracing}
+		k := c11Case{S: v.S, T: v.T, Lens: lens, Sched: sched, WithE: withE, Ideal: ideal, Trace: trace && tracing, Pat: r.intn(5)}
 		c.Case()
 		ev, hdr := c11Run(c, k)
 		if k.Trace && hdr != "" {
